@@ -440,7 +440,16 @@ func check(id, tier string) int {
 		allFound = append(allFound, o.Found...)
 	}
 	if len(agg.Internal) > 0 {
-		fmt.Fprintf(os.Stderr, "verif: harness inconsistency (not a violation):\n  %s\n", strings.Join(agg.Internal, "\n  "))
+		msgs := agg.Internal
+		if len(msgs) > 2 {
+			msgs = msgs[:2]
+		}
+		for i := range msgs {
+			if len(msgs[i]) > 1500 {
+				msgs[i] = msgs[i][:1500] + " ..."
+			}
+		}
+		fmt.Fprintf(os.Stderr, "verif: harness inconsistency in %d run(s) (not a violation):\n  %s\n", len(agg.Internal), strings.Join(msgs, "\n  "))
 		return 2
 	}
 	// One representative (lowest run index) per violation class.
